@@ -62,18 +62,22 @@ LinMethods == {"std", "nomean", "nostd", "none", "minmax", "maxabs"}
 \* the statement fixes the image of the column (constant min-max columns and zero max-abs columns are left open)
 Specified(meth, st) == ~(meth = "minmax" /\ st.mx = st.mn) /\ ~(meth = "maxabs" /\ st.ma = 0)
 
-\* image of value z in a column with statistics st, observed as y (scale S), tolerance sl grid units
-LinCellOk(meth, lo, hi, st, z, y, sl) ==
+\* Columns may be expressed in a small unit: the real value of integer entry z of a column is z / d with d a power
+\* of two carried by the case (d = 1: the integers themselves).  Dimensionless images (standardised, min-max,
+\* max-abs) do not depend on d; images in data units (centred only / unchanged) do.
+\* image of entry z in a column with statistics st and unit 1/d, observed as y (scale S), tolerance sl grid units
+LinCellOk(meth, lo, hi, st, z, y, sl, d) ==
   CASE meth = "std"    -> IF st.var THEN SqrtOkI(y, Cen(st, z), st.dn, sl, S)
-                                    ELSE RatOk(y, Cen(st, z), st.n, sl)             \* constant: only centred
+                                    ELSE RatOk(y, Cen(st, z), st.n * d, sl)         \* constant: only centred
     [] meth = "nomean" -> IF st.var
-                            THEN IF Abs(y) <= 10000000 /\ Abs(st.sum) <= 100000       \* machine arithmetic exact
+                            THEN IF d = 1 /\ Abs(y) <= 10000000 /\ Abs(st.sum) <= 100000    \* machine arithmetic exact
                                    THEN SqrtOkI(y * st.n - st.sum * S, st.n * Cen(st, z), st.dn, st.n * sl, S)
-                                   ELSE SqrtOk(BSub(BMulI(BInt(y), st.n), BMulI(BInt(st.sum), S)),
-                                               st.n * Cen(st, z), st.dn, st.n * sl, S)
-                                    ELSE RatOk(y, z, 1, sl)
-    [] meth = "nostd"  -> RatOk(y, Cen(st, z), st.n, sl)
-    [] meth = "none"   -> RatOk(y, z, 1, sl)
+                                   \* | y n d - S sum - S n d Cen / sqrt(dn) | <= n d sl
+                                   ELSE BSqrtClose(BSub(BMulI(BInt(y), st.n * d), BMulI(BInt(st.sum), S)),
+                                                   BMulI(BMulI(BInt(Cen(st, z)), st.n * d), S), st.dn, BInt(st.n * d * sl))
+                            ELSE RatOk(y, z, d, sl)
+    [] meth = "nostd"  -> RatOk(y, Cen(st, z), st.n * d, sl)
+    [] meth = "none"   -> RatOk(y, z, d, sl)
     [] meth = "minmax" -> st.mx > st.mn =>
                             RatOk(y, (z - st.mn) * (hi - lo) + lo * (st.mx - st.mn), st.mx - st.mn, sl)
     [] meth = "maxabs" -> st.ma > 0 => RatOk(y, z, st.ma, sl)
@@ -84,17 +88,17 @@ SumB(ycol) == BNorm(BSumSeq(BigSeq(ycol)))
 M2(ycol) == BSub(BMulI(BDotI(ycol, ycol), Len(ycol)), BSq(SumB(ycol)))
 BWithin(a, b, tol) == BLe(BAbs(BSub(a, b)), tol)
 
-\* normalisation reached on the training matrix: ycol = observed outputs of column with statistics st
-LinPostOk(meth, lo, hi, st, ycol, sl) ==
+\* normalisation reached on the training matrix: ycol = observed outputs of column with statistics st, unit 1/d
+LinPostOk(meth, lo, hi, st, ycol, sl, d) ==
   LET n    == st.n
       n2   == n * n
       mean0 == BWithin(SumB(ycol), <<>>, BInt(n * sl))                               \* mean 0
-      meanK == BWithin(SumB(ycol), BMulI(BInt(st.sum), S), BInt(n * sl))              \* mean kept
+      meanK == BWithin(BMulI(SumB(ycol), d), BMulI(BInt(st.sum), S), BInt(n * sl * d))  \* mean kept (= sum / (n d))
       var1  == BWithin(M2(ycol), BMulI(BInt(n2), S * S),               \* variance 1
                        BInt(n2 * (2 * S * sl + sl * sl)))
-      \* spread kept: variance of the output = variance of the input ; std(input) <= mx - mn
-      varK  == BWithin(M2(ycol), BMul(BMulI(st.dn, S), BInt(S)),
-                       BMulI(BAdd(BMul(BInt(2 * S * sl), BInt(st.mx - st.mn)), BInt(sl * sl)), n2))
+      \* spread kept: variance of the output = variance of the input = dn / (n d)^2 ; std(input) <= (mx - mn) / d
+      varK  == BWithin(BMulI(BMulI(M2(ycol), d), d), BMul(BMulI(st.dn, S), BInt(S)),
+                       BMulI(BAdd(BMulI(BMul(BInt(2 * S * sl), BInt(st.mx - st.mn)), d), BMulI(BInt(sl * sl * d), d)), n2))
   IN CASE meth = "std"    -> mean0 /\ (IF st.var THEN var1 ELSE \A i \in 1..n : Abs(ycol[i]) <= sl)
        [] meth = "nomean" -> meanK /\ (st.var => var1)
        [] meth = "nostd"  -> mean0 /\ varK
@@ -104,9 +108,11 @@ LinPostOk(meth, lo, hi, st, ycol, sl) ==
                                /\ Abs(MaxSeq(ycol) - S * hi) <= sl
        [] meth = "maxabs" -> st.ma > 0 => Abs(MaxSeq(AbsSeq(ycol)) - S) <= sl
 
-\* published parameters: off (scale S), sc (scale SP) of one column; slp = tolerance of sc in SP units
-LinFitOk(meth, st, off, sc, sl, slp) ==
-  LET scOne == Abs(sc - SP) <= slp
+\* published parameters of one column, observed in the unit of the integer entries: off = offset * d (scale S),
+\* sc = scale / d (scale SP) -- exact rescalings by the power of two d, done by the harness; sc1 = the scale as
+\* published (scale SP; 0 when too large for the grid).  slp = tolerance of sc, sc1 in SP units.
+LinFitOk(meth, st, off, sc, sc1, sl, slp) ==
+  LET scOne == Abs(sc1 - SP) <= slp
   IN CASE meth = "std"    -> /\ RatOk(off, st.sum, st.n, sl)
                              /\ st.var => SqrtOkI(sc, st.n, st.dn, slp, SP)
        [] meth = "nomean" -> st.var => SqrtOkI(sc, st.n, st.dn, slp, SP)
@@ -196,7 +202,8 @@ WhCovOk(Y, p, slw) ==
 CONSTANTS MaxN,        \* one-column training matrices have 1..MaxN rows
           MaxN2,       \* two-column training matrices have 1..MaxN2 rows (0: none)
           NegV, PosV,  \* entry values of one-column matrices: -NegV..PosV  (wider matrices: Vals2)
-          Sorted       \* TRUE: one-column matrices are enumerated as non-decreasing columns only
+          Sorted,      \* TRUE: one-column matrices are enumerated as non-decreasing columns only
+          SmallSh      \* > 0: one-column linear scalers are also run on the data divided by 2^SmallSh (small unit)
 
 Vals1 == (0 - NegV)..PosV
 Vals2 == {-1, 0, 2}
@@ -225,15 +232,16 @@ RoundSqrt(sgn, E2, D, bound) ==
   IN sgn * (IF up THEN f + 1 ELSE f)
 IdealSqrt(num, D) == RoundSqrt(Sgn(num), BSq(BInt(num)), D, Abs(num))        \* num / sqrt(D), D >= 1
 
-IdealLin(m, lo, hi, st, z) ==
-  CASE m = "std"    -> IF st.var THEN IdealSqrt(S * Cen(st, z), st.dn) ELSE RoundRat(S * Cen(st, z), st.n)
-    [] m = "nomean" -> IF st.var THEN IdealSqrt(S * Cen(st, z), st.dn) + RoundRat(S * st.sum, st.n) ELSE S * z
-    [] m = "nostd"  -> RoundRat(S * Cen(st, z), st.n)
-    [] m = "none"   -> S * z
+IdealLin(m, lo, hi, st, z, d) ==                 \* d = unit of the column (real value = z / d)
+  CASE m = "std"    -> IF st.var THEN IdealSqrt(S * Cen(st, z), st.dn) ELSE RoundRat(S * Cen(st, z), st.n * d)
+    [] m = "nomean" -> IF st.var THEN IdealSqrt(S * Cen(st, z), st.dn) + RoundRat(S * st.sum, st.n * d)
+                                 ELSE RoundRat(S * z, d)
+    [] m = "nostd"  -> RoundRat(S * Cen(st, z), st.n * d)
+    [] m = "none"   -> RoundRat(S * z, d)
     [] m = "minmax" -> IF st.mx > st.mn
                          THEN RoundRat(S * ((z - st.mn) * (hi - lo) + lo * (st.mx - st.mn)), st.mx - st.mn)
-                         ELSE S * ((z - st.mn) * (hi - lo) + lo)         \* convention of the code (not demanded)
-    [] m = "maxabs" -> IF st.ma > 0 THEN RoundRat(S * z, st.ma) ELSE S * z
+                         ELSE S * lo + RoundRat(S * (z - st.mn) * (hi - lo), d)     \* convention of the code (not demanded)
+    [] m = "maxabs" -> IF st.ma > 0 THEN RoundRat(S * z, st.ma) ELSE RoundRat(S * z, d)
 
 IdealNorm(m, x) ==
   IF ZeroRow(x) THEN x
@@ -247,11 +255,16 @@ IdealWh1(st, z) ==
   RoundSqrt(Sgn(c), BMulI(BSq(BInt(S * c)), st.n - 1), BMulI(st.dn, st.n), S * Abs(c) * st.n)
 
 IdealRow(x) ==
-  IF meth \in LinMethods THEN [j \in 1..P |-> IdealLin(meth, rng[1], rng[2], par[j], x[j])]
+  IF meth \in LinMethods THEN [j \in 1..P |-> IdealLin(meth, rng[1], rng[2], par[j], x[j], rng[3])]
   ELSE IF meth \in Norms THEN IdealNorm(meth, x)
   ELSE <<IdealWh1(par[1], x[1])>>
 
-Ranges(m) == IF m = "minmax" THEN {<<0, 1>>, <<-1, 1>>, <<5, 10>>, <<2, 2>>} ELSE {<<0, 1>>}
+RECURSIVE Pow2(_)
+Pow2(e) == IF e = 0 THEN 1 ELSE 2 * Pow2(e - 1)
+\* <<lo, hi, d>>: min-max range and the unit 1/d of the columns (d = 2^SmallSh only for one-column linear scalers)
+Units(m, p) == IF SmallSh > 0 /\ p = 1 /\ m \in LinMethods THEN {1, Pow2(SmallSh)} ELSE {1}
+Ranges(m, p) == {<<r[1], r[2], d>> : r \in (IF m = "minmax" THEN {<<0, 1>>, <<-1, 1>>, <<5, 10>>, <<2, 2>>} ELSE {<<0, 1>>}),
+                                     d \in Units(m, p)}
 
 Init ==
   /\ \/ \E n \in 1..MaxN  : /\ X \in [1..n -> [1..1 -> Vals1]]
@@ -259,7 +272,7 @@ Init ==
      \/ \E n \in 1..MaxN2 : X \in [1..n -> [1..2 -> Vals2]]
   /\ meth \in LinMethods \cup Norms \cup {"wh1"}
   /\ meth = "wh1" => P = 1 /\ N >= 2 /\ \E i \in 1..N : X[i] # X[1]
-  /\ rng \in Ranges(meth)
+  /\ rng \in Ranges(meth, P)
   /\ pc = "fit" /\ par = <<>> /\ k = 0 /\ outs = <<>>
 
 Fit ==
@@ -292,7 +305,7 @@ YCol(j) == [i \in 1..N |-> outs[i][j]]
 InvAccept ==
   \A r \in {k} \ {0} :                 \* the row applied last (every row is the last one in some state)
     IF meth \in LinMethods
-      THEN \A j \in 1..P : LinCellOk(meth, rng[1], rng[2], par[j], AllRows[r][j], outs[r][j], 1)
+      THEN \A j \in 1..P : LinCellOk(meth, rng[1], rng[2], par[j], AllRows[r][j], outs[r][j], 1, rng[3])
     ELSE IF meth \in Norms THEN NormRowOk(meth, AllRows[r], outs[r], 1)
     ELSE TRUE
 
@@ -302,7 +315,7 @@ InvTight ==
   \A r \in {k} \ {0} : \A j \in 1..P : \A d \in {-3, 3} :
     IF meth \in LinMethods
       THEN Specified(meth, par[j]) =>
-             ~LinCellOk(meth, rng[1], rng[2], par[j], AllRows[r][j], outs[r][j] + d, 1)
+             ~LinCellOk(meth, rng[1], rng[2], par[j], AllRows[r][j], outs[r][j] + d, 1, rng[3])
     ELSE IF meth \in Norms THEN ZeroRow(AllRows[r]) \/ ~NormRowOk(meth, AllRows[r], Bump(outs[r], j, d), 1)
     ELSE TRUE
 
@@ -310,7 +323,7 @@ InvTight ==
 InvPost ==
   k >= N =>
     IF meth \in LinMethods
-      THEN \A j \in 1..P : LinPostOk(meth, rng[1], rng[2], par[j], YCol(j), 1)
+      THEN \A j \in 1..P : LinPostOk(meth, rng[1], rng[2], par[j], YCol(j), 1, rng[3])
     ELSE IF meth = "wh1" THEN WhCovOk([i \in 1..N |-> outs[i]], 1, 4)
     ELSE TRUE
 
@@ -320,7 +333,7 @@ InvPostTight ==
   k >= N =>
     /\ meth \in {"std", "nomean"} =>
          \A j \in 1..P : par[j].var /\ (meth = "std" \/ par[j].sum = 0) =>
-                           ~LinPostOk(meth, rng[1], rng[2], par[j], Stretch(YCol(j)), 1)
+                           ~LinPostOk(meth, rng[1], rng[2], par[j], Stretch(YCol(j)), 1, rng[3])
     /\ meth = "wh1" => ~WhCovOk([i \in 1..N |-> <<outs[i][1] + outs[i][1] \div 50>>], 1, 4)
 
 \* parameters do not depend on the order of the training rows
